@@ -121,6 +121,9 @@ type Sched struct {
 	aborted   atomic.Bool
 	abortWhy  string
 	stepHooks []func() // see OnStep
+	pools     map[*sync.Pool][]any // see PoolGet
+	hashDrawn bool
+	hashDelay time.Duration // see SHA1Sum
 	knobs     map[string]int
 	knobsOn   bool
 	// KnobsAllowed: the scenario tolerates shortened queues (see Knob)
